@@ -71,12 +71,12 @@ var pureStd = map[string]bool{
 	"net/http": true, "io": true, "io/fs": true, "bufio": true, "cmp": true, "iter": true, "context": true,
 	"hash/fnv": true, "hash/crc32": true, "hash/maphash": false, "crypto/sha256": true, "crypto/sha1": true, "crypto/md5": true,
 	"encoding/hex": true, "encoding/base64": true, "text/tabwriter": true, "html/template": true, "text/template": true,
-	"net/url": true, "container/list": true, "container/heap": true, "sync/atomic": true, "testing": true,
+	"runtime/debug": true, "net/url": true, "container/list": true, "container/heap": true, "sync/atomic": true, "testing": true,
 }
 
 // packages with partial seams: listed functions are redirected, listed pure ones are allowed, other functions refused
 var shimFuncs = map[string]map[string]string{
-	"os":            {"ReadFile": "ReadFile", "Stat": "Stat", "Lstat": "Lstat", "ReadDir": "ReadDir", "Getwd": "Getwd"},
+	"os":            {"ReadFile": "ReadFile", "Stat": "Stat", "Lstat": "Lstat", "ReadDir": "ReadDir", "Getwd": "Getwd", "Open": "Open"},
 	"path/filepath": {"Walk": "Walk", "WalkDir": "WalkDir", "Abs": "Abs"},
 	"time":          {"Now": "Now", "Since": "Since", "Until": "Until", "Sleep": "Sleep"},
 	"io/ioutil":     {"ReadFile": "ReadFile"},
@@ -1355,6 +1355,11 @@ func (r *rewriter) rewriteExprs() {
 						refuse(n.Pos(), "math/rand.%s has no seam", n.Sel.Name)
 					}
 				}
+				return true
+			}
+			if tn, isType := obj.(*types.TypeName); isType && path == "os" && tn.Name() == "File" {
+				id.Name = "simrt"
+				r.needImp = true
 				return true
 			}
 			if _, isFunc := obj.(*types.Func); !isFunc {
